@@ -48,10 +48,8 @@ func genNVAttr(c *gal.Ctx) {
 		spec := mask|opt == want|opt
 		if got == spec {
 			c.OracleOK()
-		} else if (got && !spec) || (!got && mask == 0) {
-			c.OracleFailKnown(idx, "C05-NVAttr-precedence", "checkTPM2NVAttr accepts an attribute word that differs from the wanted one outside the optional bits ((1 >> mask & x) parses as (1 >> mask) & x)", siteTPM+":checkTPM2NVAttr", d)
 		} else {
-			c.OracleFail(idx, fmt.Sprintf("checkTPM2NVAttr(%#x, %#x, %#x) = %v, exact pattern match = %v", mask, want, opt, got, spec), siteTPM+":checkTPM2NVAttr", d)
+			c.OracleFail(idx, fmt.Sprintf("checkTPM2NVAttr(%#x, %#x, %#x) = %v, the attribute word equals the wanted one up to the optional bits = %v", mask, want, opt, got, spec), siteTPM+":checkTPM2NVAttr", d)
 		}
 	}
 	for w := 0; w < 3; w++ {
@@ -136,29 +134,15 @@ func genNVIndex(c *gal.Ctx) {
 		attrOK := attrs|aWritten == wantAttr[which]|aWritten
 		sizeOK := knownAlg && int(dataSize) == dg*mult+baseSize[which]
 		spec := attrOK && sizeOK
-		// for SHA256/384/512 the size the code expects coincides with the specified one, so there
-		// the attribute test is the only listed deviation; for every other name algorithm the code's
-		// size expectation (Go hash table) is the listed finding
-		coincident := nameAlg == 0x000B || nameAlg == 0x000C || nameAlg == 0x000D
 		switch {
 		case exact(got, spec):
 			c.OracleOK()
-		case got.Panic && (nameAlg == 0 || nameAlg > 19):
-			c.OracleFailKnown(id, "C05-NVIndex-nameAlg-cryptoHash", idxName[which]+" panics: crypto.Hash(nameAlg).Size() is applied to a TPM algorithm id", siteTPM+":"+idxName[which], d)
-		case got.Panic || got.E2:
-			c.OracleFail(id, fmt.Sprintf("%s: unexpected %+v", idxName[which], got), siteTPM, d)
-		case which == 2 && spec && !got.OK:
-			c.OracleFailKnown(id, "C05-POIndexConfig-never-passes", "POIndexConfig rejects a correctly configured PO index (falls out of the switch into 'unknown TPM device version')", siteTPM+":POIndexConfig", d)
-		case which == 2 && !got.OK:
-			c.OracleOK() // rejected and should be rejected
-		case coincident && got.OK && !attrOK && sizeOK:
-			c.OracleFailKnown(id, "C05-NVAttr-precedence", idxName[which]+" accepts an NV index whose attributes differ from the required ones", siteTPM+":checkTPM2NVAttr", d)
-		case !coincident && got.OK && !attrOK:
-			c.OracleFailKnown(id, "C05-NVAttr-precedence", idxName[which]+" accepts an NV index whose attributes differ from the required ones", siteTPM+":checkTPM2NVAttr", d)
-		case !coincident && attrOK:
-			c.OracleFailKnown(id, "C05-NVIndex-nameAlg-cryptoHash", idxName[which]+" expects the digest size of crypto.Hash(nameAlg) instead of the TPM algorithm's (right for SHA256/384/512 by coincidence, wrong for SHA1 and SM3)", siteTPM+":"+idxName[which], d)
+		case got.Panic:
+			c.OracleFail(id, fmt.Sprintf("%s panicked instead of giving a verdict (name algorithm %#x): %s", idxName[which], nameAlg, got.Msg), siteTPM+":"+idxName[which], d)
+		case nameAlg == 0x0012 && spec && !got.OK && got.E1 && !got.E2:
+			c.OracleFailKnown(id, "C05-NVIndex-SM3-lib", idxName[which]+" rejects a correctly configured index whose name algorithm is SM3-256: go-tpm's Algorithm.Hash() does not know the algorithm", siteTPM+":"+idxName[which]+" (go-tpm legacy/tpm2 constants.go:hashInfo)", d)
 		default:
-			c.OracleFail(id, fmt.Sprintf("%s: spec accept=%v (attributes ok=%v, size ok=%v), got %+v", idxName[which], spec, attrOK, sizeOK, got), siteTPM, d)
+			c.OracleFail(id, fmt.Sprintf("%s: spec accept=%v (attributes equal the required ones up to Written=%v, data size = base + digest size of the name algorithm=%v), got %+v", idxName[which], spec, attrOK, sizeOK, got), siteTPM+":"+idxName[which], d)
 		}
 	}
 	for which := 0; which < 3; which++ {
@@ -175,6 +159,12 @@ func genNVIndex(c *gal.Ctx) {
 		add20("nvidx20_good_sha384", which, 0x000C, want, hash, uint16(48*mult+baseSize[which]), -1)
 		add20("nvidx20_good_sha1", which, 0x0004, want, hash[:20], uint16(20*mult+baseSize[which]), -1)
 		add20("nvidx20_sha1_gosize", which, 0x0004, want, hash[:20], uint16(28*mult+baseSize[which]), -1)
+		add20("nvidx20_good_sha512", which, 0x000D, want, hash, uint16(64*mult+baseSize[which]), -1)
+		add20("nvidx20_good_sm3", which, 0x0012, want, hash, uint16(32*mult+baseSize[which]), -1)
+		add20("nvidx20_sm3_gosize", which, 0x0012, want, hash, uint16(48*mult+baseSize[which]), -1)
+		for _, alg := range []uint16{0x27, 0x28, 0x29} { // SHA3: not a digest the TXT NV matrix knows
+			add20("nvidx20_sha3", which, alg, want, hash, uint16(map[uint16]int{0x27: 32, 0x28: 48, 0x29: 64}[alg]*mult+baseSize[which]), -1)
+		}
 		add20("nvidx20_size_off", which, 0x000B, want, hash, good+1, -1)
 		add20("nvidx20_size_off", which, 0x000B, want, hash, good-1, -1)
 		add20("nvidx20_attr_zero", which, 0x000B, 0, hash, good, -1)
@@ -267,10 +257,8 @@ func genNVIndex(c *gal.Ctx) {
 			c.OracleFail(id, fmt.Sprintf("%s (TPM 1.2): WriteDefine=%v, verdict %+v: the WriteDefine remark is attached to the wrong state", idxName[which], wd, got), siteTPM, d)
 		case got.OK == accept:
 			c.OracleOK()
-		case which == 2 && accept && !got.OK:
-			c.OracleFailKnown(id, "C05-POIndexConfig-never-passes", "POIndexConfig rejects a correctly configured TPM 1.2 PO index", siteTPM+":POIndexConfig", d)
 		default:
-			c.OracleFail(id, fmt.Sprintf("%s (TPM 1.2): accepted pattern = %v, got %+v", idxName[which], accept, got), siteTPM, d)
+			c.OracleFail(id, fmt.Sprintf("%s (TPM 1.2): accepted pattern = %v, got %+v", idxName[which], accept, got), siteTPM+":"+idxName[which], d)
 		}
 	}
 	z := [3]byte{}
@@ -338,12 +326,9 @@ func genLCP(c *gal.Ctx) {
 		d := map[string]interface{}{"check": name(po), "policy2": pol, "presetLCPHash": preset, "got": got}
 		id := c.Add(kind, fmt.Sprintf("CLcp2 %d %d %d %d %d %d %s", preset, pol.Version, pol.HashAlg, pol.PolicyType, pol.LcpHashAlgMask, pol.LcpSignAlgMask, got.lit()), d, true)
 		spec := pol.Version >= 0x300 && uint16(pol.HashAlg) == preset && (pol.PolicyType == 0 || pol.PolicyType == 1) && pol.LcpHashAlgMask != 0 && pol.LcpSignAlgMask != 0
-		switch {
-		case exact(got, spec):
+		if exact(got, spec) {
 			c.OracleOK()
-		case got.Panic && pol.PolicyType != 1 && pol.Version >= 0x300 && uint16(pol.HashAlg) == preset:
-			c.OracleFailKnown(id, "C05-LCP2-nil-deref", name(po)+" panics (nil pointer) on every LCP_POLICY2 whose PolicyType is not ANY: the test reads pol1.PolicyType with pol1 == nil", siteTPM+":"+name(po), d)
-		default:
+		} else {
 			c.OracleFail(id, fmt.Sprintf("%s: LCP_POLICY2 valid = %v, got %+v", name(po), spec, got), siteTPM+":"+name(po), d)
 		}
 	}
